@@ -102,6 +102,35 @@ Json gen_init(Rng &g, unsigned ev, bool cplx, bool thorough)
         bad.push(simx::rnum(g, p, 1, npool));
         outs.push(bad);
     }
+    // inputs named like the temporaries cse() invents (x0, x1, ...): unused
+    // ones must not shadow a temporary, used ones must not be reused as one
+    Json extra = Json::array();
+    if (g.chance(1, 3)) {
+        static const char *nm[] = {"x0", "x1", "x2", "x3", "x4", "x10"};
+        unsigned ne = 1 + (unsigned)g.below(3);
+        for (unsigned i = 0; i < ne; i++) {
+            std::string name = nm[g.below(6)];
+            bool dup = false;
+            for (size_t j = 0; j < extra.size(); j++)
+                if (extra[j].s == name)
+                    dup = true;
+            if (dup)
+                continue;
+            extra.push(name);
+            if (g.chance(1, 3) && outs.size() > 0) { // and used by an output
+                size_t k = (size_t)g.below(outs.size());
+                Json w = Json::array();
+                w.push(g.chance(1, 2) ? "add" : "mul");
+                w.push(outs[k]);
+                Json sy = Json::array();
+                sy.push("symn");
+                sy.push(name);
+                w.push(sy);
+                outs.a[k] = w;
+            }
+        }
+    }
+    o["extra_inputs"] = extra;
     o["poison"] = poison;
     o["outputs"] = outs;
     o["single"] = (outs.size() == 1 && g.chance(1, 2));
@@ -322,6 +351,20 @@ void do_init(Run &run, Slot<V, T> &s, const Json &o)
     unsigned nin = 1 + (unsigned)((o.geti("nin", 1) + 7) % 8);
     for (unsigned i = 0; i < nin; i++)
         inputs.push_back(simx::sym_n(i));
+    {
+        const Json &ex = o.at("extra_inputs");
+        for (size_t i = 0; i < ex.size() && i < 4; i++) {
+            RCP<const Basic> sy = symbol(ex[i].s.empty() ? std::string("x0") : ex[i].s);
+            bool dup = false;
+            for (auto &q : inputs)
+                if (eq(*q, *sy))
+                    dup = true;
+            if (!dup) {
+                inputs.push_back(sy);
+                run.probe("input_named_like_cse_temporary");
+            }
+        }
+    }
     bool cse = o.at("cse").as_bool();
     bool single = o.at("single").as_bool();
     if (!s.v)
